@@ -335,6 +335,8 @@ def rule_panic_ledger(ctx):
             for rel, fnp, kind, line in lst:
                 fn = _fn_for(ctx, rel, line)
                 conds = conditions_at(fn, line) if fn else []
+                # `not(!(c))` (the else of `if !(c)`) is `c`
+                conds = conds + [m_.group(1) for c_ in conds for m_ in [re.fullmatch(r"not\(!\((.*)\)\)", c_)] if m_] + [m_.group(1) for c_ in conds for m_ in [re.fullmatch(r"not\(!([\w.]+(?:\(\))?)\)", c_)] if m_]
                 if not any(re.search(arg, c) for c in conds):
                     ctx.report(
                         f"guard-lost:{construct}",
